@@ -173,7 +173,7 @@ pub(crate) struct RequestResponseProtocol {
     >,
 
     /// Pending dials for outbound requests.
-    pending_dials: HashMap<PeerId, RequestContext>,
+    pending_dials: HashMap<PeerId, Vec<RequestContext>>,
 
     /// TX channel for sending events to the user protocol.
     event_tx: Sender<InnerRequestResponseEvent>,
@@ -231,17 +231,13 @@ impl RequestResponseProtocol {
             return Err(Error::PeerAlreadyExists(peer));
         };
 
-        match self.pending_dials.remove(&peer) {
-            None => {
-                tracing::debug!(
-                    target: LOG_TARGET,
-                    ?peer,
-                    protocol = %self.protocol,
-                    "peer connected without pending dial",
-                );
-                entry.insert(PeerContext::new());
-            }
-            Some(context) => match self.service.open_substream(peer) {
+        // Every request that was waiting for this dial gets its own substream.
+        let contexts = self.pending_dials.remove(&peer).unwrap_or_default();
+        let mut peer_context = PeerContext::new();
+        let mut failed = Vec::new();
+
+        for context in contexts {
+            match self.service.open_substream(peer) {
                 Ok(substream_id) => {
                     tracing::trace!(
                         target: LOG_TARGET,
@@ -252,10 +248,7 @@ impl RequestResponseProtocol {
                         "dial succeeded, open substream",
                     );
 
-                    entry.insert(PeerContext {
-                        active: HashSet::from_iter([context.request_id]),
-                        active_inbound: HashMap::new(),
-                    });
+                    peer_context.active.insert(context.request_id);
                     self.pending_outbound.insert(
                         substream_id,
                         RequestContext::new(
@@ -280,15 +273,20 @@ impl RequestResponseProtocol {
                         "failed to open substream",
                     );
 
-                    return self
-                        .report_request_failure(
-                            peer,
-                            context.request_id,
-                            RequestResponseError::Rejected(error.into()),
-                        )
-                        .await;
+                    failed.push((context.request_id, error));
                 }
-            },
+            }
+        }
+
+        entry.insert(peer_context);
+
+        for (request_id, error) in failed {
+            self.report_request_failure(
+                peer,
+                request_id,
+                RequestResponseError::Rejected(error.into()),
+            )
+            .await?;
         }
 
         Ok(())
@@ -626,8 +624,14 @@ impl RequestResponseProtocol {
     }
 
     async fn on_dial_failure(&mut self, peer: PeerId) {
-        if let Some(context) = self.pending_dials.remove(&peer) {
-            tracing::debug!(target: LOG_TARGET, ?peer, protocol = %self.protocol, "failed to dial peer");
+        for context in self.pending_dials.remove(&peer).unwrap_or_default() {
+            tracing::debug!(
+                target: LOG_TARGET,
+                ?peer,
+                protocol = %self.protocol,
+                request_id = ?context.request_id,
+                "failed to dial peer",
+            );
 
             let _ = self
                 .peers
@@ -753,10 +757,10 @@ impl RequestResponseProtocol {
                             "started dialing peer",
                         );
 
-                        self.pending_dials.insert(
-                            peer,
-                            RequestContext::new(peer, request_id, request, fallback),
-                        );
+                        self.pending_dials
+                            .entry(peer)
+                            .or_default()
+                            .push(RequestContext::new(peer, request_id, request, fallback));
                         return Ok(());
                     }
                     Err(error) => {
